@@ -26,3 +26,174 @@ Qed.
 
 Lemma bucket_remove_length b i : (i < length b)%nat -> S (length (bucket_remove b i)) = length b.
 Proof. intros H. pose proof (Permutation_length (bucket_remove_perm b i H)) as P. simpl in P. exact P. Qed.
+
+Lemma perm_transfer (A b b' C D : list item) x :
+  Permutation (x :: b') b -> Permutation ((A ++ b' ++ C) ++ D ++ [x]) ((A ++ b ++ C) ++ D).
+Proof.
+  intros P. rewrite app_assoc.
+  apply perm_trans with (x :: ((A ++ b' ++ C) ++ D)); [symmetry; apply Permutation_cons_append|].
+  change (x :: (A ++ b' ++ C) ++ D) with ((x :: A ++ b' ++ C) ++ D). apply Permutation_app_tail.
+  etransitivity; [apply Permutation_middle|]. apply Permutation_app_head.
+  change (x :: b' ++ C) with ((x :: b') ++ C). apply Permutation_app_tail. exact P.
+Qed.
+
+Lemma has_key_false_notin d k : has_key d k = false -> ~ In k (map key d).
+Proof.
+  intros H I. apply in_map_iff in I. destruct I as (y & E & I).
+  assert (has_key d k = true); [|congruence].
+  apply existsb_exists. exists y. split; [exact I|]. apply Z.eqb_eq. exact E.
+Qed.
+
+Lemma has_key_true_in d k : has_key d k = true -> In k (map key d).
+Proof.
+  intros H. apply existsb_exists in H. destruct H as (y & I & E). apply Z.eqb_eq in E. subst. apply in_map. exact I.
+Qed.
+
+Lemma in_has_key d k : In k (map key d) -> has_key d k = true.
+Proof.
+  intros I. destruct (has_key d k) eqn:E; [reflexivity|]. exfalso. exact (has_key_false_notin _ _ E I).
+Qed.
+
+Lemma nodup_keys_snoc d x : NoDup (map key d) -> has_key d (key x) = false -> NoDup (map key (d ++ [x])).
+Proof.
+  intros N H. rewrite map_app. simpl.
+  apply Permutation_NoDup with (l := key x :: map key d); [apply Permutation_cons_append|].
+  constructor; [apply has_key_false_notin; exact H|exact N].
+Qed.
+
+(* ---------------------------------------------------------------- mechanism facts *)
+
+Lemma extract_reloc_value c w x r w' e : extract_reloc c w x r = (w', Some e) -> e = x.
+Proof.
+  unfold extract_reloc. destruct r as [l|].
+  - destruct (replace_relocate c w l x) as [w1 [[e1 m1]|]] eqn:E; intros H; inversion H; subst.
+    apply replace_relocate_value in E. tauto.
+  - apply relocate_value.
+Qed.
+
+Lemma extract_reloc_no_copy c w x r w' o : nothrow_reloc c = true -> no_copy (tr w) ->
+  extract_reloc c w x r = (w', o) -> no_copy (tr w').
+Proof.
+  unfold extract_reloc. intros Hc Hn. destruct r as [l|].
+  - destruct (replace_relocate c w l x) as [w1 o1] eqn:E. pose proof (replace_relocate_no_copy _ _ _ _ _ _ Hc Hn E) as N.
+    destruct o1 as [[e1 m1]|]; intros H; inversion H; subst; exact N.
+  - intros H. exact (relocate_no_copy _ _ _ _ _ Hc Hn H).
+Qed.
+
+(* a nothrow-relocatable category never throws while relocating: the extraction always succeeds *)
+Lemma extract_reloc_nothrow c w x r : nothrow_reloc c = true -> exists w', extract_reloc c w x r = (w', Some x).
+Proof.
+  intros Hc. unfold extract_reloc. destruct r as [l|].
+  - destruct (replace_relocate_nothrow c w l x Hc) as (w' & E & _). rewrite E. eexists; reflexivity.
+  - destruct (relocate_nothrow c w x Hc) as (w' & E & _). rewrite E. eexists; reflexivity.
+Qed.
+
+Lemma fail_func_tr w : tr (fail_func w) = EFail FFunc :: tr w. Proof. reflexivity. Qed.
+Lemma fail_alloc_tr w : tr (fail_alloc w) = EFail FAlloc :: tr w. Proof. reflexivity. Qed.
+
+(* ================================================================ HashSet::pvMergeTo *)
+
+Definition hinv (init : list item) (st : mstate) : Prop :=
+  Permutation (src_items st ++ s_dst st) init /\ (s_idx st <= length (s_cur st))%nat.
+
+Ltac hstep_cases c multi st :=
+  unfold hstep; destruct st as [dn b idx todo dst w stat]; simpl;
+  destruct stat; simpl; try tauto;
+  destruct idx as [|i]; simpl;
+  [ destruct todo as [|b2 t]; simpl
+  | destruct (step_func w) as [w1|] eqn:Ef; simpl;
+    [ destruct (negb multi && has_key dst (key (nth i b 0))) eqn:Eh; simpl;
+      [ | destruct (step_alloc w1) as [w2|] eqn:Ea; simpl;
+          [ destruct (extract_reloc c w2 (nth i b 0) (repl_of b i)) as [w3 [e|]] eqn:Ee; simpl | ] ]
+    | ] ].
+
+Lemma hstep_inv c multi init st : hinv init st -> hinv init (hstep c multi st).
+Proof.
+  unfold hinv, src_items. hstep_cases c multi st; intros [P L]; simpl in *; try (split; [exact P|lia]); try tauto.
+  - split; [|lia]. rewrite concat_app. simpl. rewrite app_nil_r. rewrite <- !app_assoc in *. exact P.
+  - apply extract_reloc_value in Ee. subst e.
+    assert (Hi : (i < length b)%nat) by lia.
+    split.
+    + etransitivity; [|exact P]. apply perm_transfer. apply bucket_remove_perm. exact Hi.
+    + pose proof (bucket_remove_length b i Hi). lia.
+Qed.
+
+Lemma hrun_inv c multi init n st : hinv init st -> hinv init (hrun c multi n st).
+Proof. intros H. induction n; simpl; [exact H|]. apply hstep_inv. exact IHn. Qed.
+
+Lemma hinit_inv src dst w : hinv (concat src ++ dst) (hinit src dst w).
+Proof. split; simpl; [|lia]. unfold src_items. simpl. reflexivity. Qed.
+
+(* merge_conservation, hash source: after ANY number of loop iterations (hence also in the state left behind
+   by a failure part-way, and in the final state) source (+) destination is the initial multiset. *)
+Theorem hmerge_conservation c multi src dst w n :
+  Permutation (src_items (hrun c multi n (hinit src dst w)) ++ s_dst (hrun c multi n (hinit src dst w)))
+              (concat src ++ dst).
+Proof. exact (proj1 (hrun_inv c multi _ n _ (hinit_inv src dst w))). Qed.
+
+(* unique-key destinations never contain duplicate keys *)
+Lemma hstep_nodup c multi st : multi = false ->
+  NoDup (map key (s_dst st)) -> NoDup (map key (s_dst (hstep c multi st))).
+Proof.
+  intros Hm. hstep_cases c multi st; intros N; subst multi; simpl in *; try exact N.
+  apply extract_reloc_value in Ee. subst e. apply nodup_keys_snoc; assumption.
+Qed.
+
+Theorem hmerge_unique_nodup c src dst w n :
+  NoDup (map key dst) -> NoDup (map key (s_dst (hrun c false n (hinit src dst w)))).
+Proof. intros N. induction n; simpl; [exact N|]. apply hstep_nodup; [reflexivity|exact IHn]. Qed.
+
+(* the trace of a movable (nothrow-relocatable) category contains no copy *)
+Lemma hstep_no_copy c multi st : nothrow_reloc c = true ->
+  no_copy (tr (s_w st)) -> no_copy (tr (s_w (hstep c multi st))).
+Proof.
+  intros Hc. hstep_cases c multi st; intros N; simpl in *; try exact N;
+  try (apply step_func_tr in Ef); try (apply step_alloc_tr in Ea);
+  try (rewrite Ef; exact N); try (apply no_copy_cons; [reflexivity|]; try rewrite Ea; try rewrite Ef; exact N).
+  - eapply extract_reloc_no_copy; [exact Hc| |exact Ee]. rewrite Ea, Ef. exact N.
+  - eapply extract_reloc_no_copy; [exact Hc| |exact Ee]. rewrite Ea, Ef. exact N.
+Qed.
+
+Theorem hmerge_no_copy c multi src dst w n : nothrow_reloc c = true -> no_copy (tr w) ->
+  no_copy (tr (s_w (hrun c multi n (hinit src dst w)))).
+Proof. intros Hc N. induction n; simpl; [exact N|]. apply hstep_no_copy; assumption. Qed.
+
+(* an element refused by a unique-key destination stays in the source *)
+Definition hkeep (dst0 : list item) (st : mstate) : Prop :=
+  (forall k, In k (map key dst0) -> In k (map key (s_dst st))).
+
+Lemma hstep_keys_grow c multi st k : In k (map key (s_dst st)) -> In k (map key (s_dst (hstep c multi st))).
+Proof.
+  hstep_cases c multi st; intros I; simpl in *; try exact I.
+  rewrite map_app. apply in_or_app. left. exact I.
+Qed.
+
+Lemma hstep_stays c multi st y : multi = false -> In y (src_items st) -> has_key (s_dst st) (key y) = true ->
+  (s_idx st <= length (s_cur st))%nat -> In y (src_items (hstep c multi st)).
+Proof.
+  intros Hm. unfold src_items. hstep_cases c multi st; intros I K L; subst multi; simpl in *; try exact I.
+  - rewrite concat_app. simpl. rewrite app_nil_r. rewrite <- !app_assoc. exact I.
+  - apply extract_reloc_value in Ee. subst e.
+    assert (Hne : y <> nth i b 0) by (intros ->; congruence).
+    assert (Hi : (i < length b)%nat) by lia.
+    apply in_app_or in I. apply in_or_app. destruct I as [I|I]; [left; exact I|right].
+    apply in_app_or in I. apply in_or_app. destruct I as [I|I]; [left|right; exact I].
+    apply (Permutation_in _ (Permutation_sym (bucket_remove_perm b i Hi))) in I.
+    destruct I as [I|I]; [congruence|exact I].
+Qed.
+
+Theorem hmerge_refused_stays c src dst w n y :
+  In y (concat src) -> has_key dst (key y) = true ->
+  In y (src_items (hrun c false n (hinit src dst w))).
+Proof.
+  intros I K.
+  assert (G : In y (src_items (hrun c false n (hinit src dst w))) /\
+              has_key (s_dst (hrun c false n (hinit src dst w))) (key y) = true).
+  { induction n; simpl.
+    - split; [|exact K]. unfold src_items; simpl. exact I.
+    - destruct IHn as [I1 K1]. split.
+      + apply hstep_stays; [reflexivity|exact I1|exact K1|].
+        exact (proj2 (hrun_inv c false _ n _ (hinit_inv src dst w))).
+      + apply in_has_key. apply hstep_keys_grow. apply has_key_true_in. exact K1. }
+  exact (proj1 G).
+Qed.
